@@ -40,10 +40,14 @@
   with the real code (held blocks allocated and freeable at their order, counts agree, at most
   the in-flight calls' frames missing), and by recover-at-quiescent-points in the sequential
   histories and the NVM wrapper runs.
+
+  * `conc_crash_anywhere_with_tree_changes` — the same for threads that also call `change_tree`
+    (class changes, `Offline`): tree changes touch only volatile state.
 -/
 import LLFreeV.Proofs.EndToEnd
 import LLFreeV.Proofs.OwnLowerThreads
 import LLFreeV.Proofs.OwnUpperThreads
+import LLFreeV.Proofs.ConcChange
 namespace LLFree.C05
 open LLFree
 
@@ -163,5 +167,25 @@ theorem conc_counters_never_over_report (c : Cfg) (ok : GeomOk16 c.geom) (m : Me
     (Huge.isHuge (m'.hugeE h) = true → zerosIn c.geom m' h = c.geom.hugeFrames) := by
   obtain ⟨_, hok⟩ := lower_threads_safe ok m inv n retries cmds sched hsched
   exact ⟨hok.counter_le h, hok.marker h⟩
+
+/-- **Crash at any instant of any interleaving that also changes trees, then recovery**: threads run
+    public calls and `change_tree` calls (class changes, `Offline`; these touch only the volatile tree
+    array) from any contents of the volatile arrays; every reachable state is a legal crash image and
+    recovery keeps every holding allocated. -/
+theorem conc_crash_anywhere_with_tree_changes (c : Cfg) (ok : GeomOk16 c.geom) (m : Mem) (inv : LowerInv c m) (ht : m.trees.size = c.ntrees)
+    (n : Nat) (cmds : Nat → List CCmd) (sched : List Nat) (hsched : ∀ k ∈ sched, k < n) :
+    ∃ ghs, ConcFacts c.geom c.frames (concRun sched (m, fun k => Th.at (runUC c (cmds k) ⟨[], []⟩))).1 ghs ∧
+      Runs (concRun sched (m, fun k => Th.at (runUC c (cmds k) ⟨[], []⟩))).1
+        (Lower.recover c.geom c.ntrees c.nhuge) (fun _ m'' => LowerInv c m'' ∧
+          (∀ k f, (ghs k).ownS f = true → m''.bit f = true) ∧
+          (∀ k h, (ghs k).ownH h = true → Huge.isHuge (m''.hugeE h) = true)) := by
+  have okg := ok.toGeomOk
+  have hhf : Huge.isHuge c.geom.hugeFrames = false := isHuge_of_le ok _ (Nat.le_refl _)
+  have I0 := LInv.init_gen ok m inv n false (PostLU c) (fun k => runUC c (cmds k) ⟨[], []⟩)
+    (fun k => runUC_safe ok (cmds k) ⟨[], []⟩ ⟨trivial, (fun b hb => by cases hb), trivial⟩)
+  obtain ⟨ghs, I⟩ := LInv.run okg hhf sched hsched m _ _ I0
+  have hsz := concRun_sizes sched m (fun k => Th.at (runUC c (cmds k) ⟨[], []⟩))
+  exact ⟨ghs, I.facts okg, LInv.recovers ok (Or.inr I) (by rw [hsz.1]; exact inv.rowsSize) (by rw [hsz.2.1]; exact inv.hugeSize)
+    (by rw [hsz.2.2.1]; exact ht)⟩
 
 end LLFree.C05
